@@ -23,6 +23,10 @@ type Prov struct {
 	Err     bool
 	Async   bool
 	Bind    string // interface name, "" if none
+	// BindOutside writes kessoku.Bind[I](kessoku.Async(...)) instead of Async(Bind(...)).
+	BindOutside bool
+	// ErrAlias: the error result is spelled through an alias of error (type Failure = error).
+	ErrAlias bool
 	Kind    int
 	Struct  string   // KStruct: the struct type expression, e.g. "*S0"
 	Fields  []string // KStruct: exported field names (sorted), types in FieldTypes
@@ -116,6 +120,12 @@ func provExpr(pr Prov) string {
 	case KStruct:
 		e = "kessoku.Struct[" + pr.Struct + "]()"
 	}
+	if pr.Bind != "" && pr.BindOutside {
+		if pr.Async {
+			e = "kessoku.Async(" + e + ")"
+		}
+		return "kessoku.Bind[" + pr.Bind + "](" + e + ")"
+	}
 	if pr.Bind != "" {
 		e = "kessoku.Bind[" + pr.Bind + "](" + e + ")"
 	}
@@ -143,7 +153,11 @@ func FuncSource(pr Prov, body string) string {
 		if res != "" {
 			res += ", "
 		}
-		res += "error"
+		if pr.ErrAlias {
+			res += "Failure"
+		} else {
+			res += "error"
+		}
 	}
 	if len(pr.Results)+b2i(pr.Err) > 1 {
 		res = "(" + res + ")"
@@ -224,6 +238,12 @@ func (p *Program) Emit(bodyOf func(pr Prov) string, extraImports []string) map[s
 	}
 	for _, c := range p.Consts {
 		sb.WriteString(c + "\n")
+	}
+	for _, pr := range p.allProvs() {
+		if pr.ErrAlias {
+			sb.WriteString("type Failure = error\n")
+			break
+		}
 	}
 	sb.WriteString("\n")
 	for _, pr := range p.allProvs() {
